@@ -89,7 +89,7 @@ fn group_addr(v6: bool, g: u8) -> IpAddr {
 
 #[derive(Clone, Debug)]
 enum Ev {
-    Bind { uid: usize, host: usize, port: u16, localhost: bool, step: u64, buf: usize },
+    Bind { uid: usize, host: usize, port: u16, localhost: bool, step: u64, buf: usize, pause: u64 },
     BindFailed { host: usize, kind: String },
     Drop { uid: usize, step: u64 },
     Join { uid: usize, group: u8, step: u64, ok: bool },
@@ -217,7 +217,7 @@ async fn host_software(sh: Rc<Shared>, me: usize, sc: Scenario) -> turmoil::Resu
                                 sh.next_uid.set(uid + 1);
                                 let buf = (buf as usize).clamp(8, 80);
                                 let port = s.local_addr().unwrap().port();
-                                sh.log.borrow_mut().push(Ev::Bind { uid, host: me, port, localhost, step: k, buf });
+                                sh.log.borrow_mut().push(Ev::Bind { uid, host: me, port, localhost, step: k, buf, pause: pause as u64 });
                                 let sock = Rc::new(s);
                                 let task = tokio::task::spawn_local(receiver(sh.clone(), sock.clone(), uid, mode, buf, pause));
                                 slots[slot] = Some(Live { uid, sock, task });
@@ -321,6 +321,8 @@ struct SockInfo {
     from: u64,
     to: u64, // exclusive upper step bound (u64::MAX if never dropped)
     buf: usize,
+    /// receiver's pause before every receive (ms): a slow receiver needs the socket to live longer
+    pause: u64,
     connects: Vec<(u64, SocketAddr)>,
     broadcast: Vec<(usize, bool)>, // (log pos, on)
 }
@@ -381,8 +383,8 @@ pub fn run(sc: &Scenario) -> Outcome {
     let mut member_iv: Vec<((usize, u16, u8), usize, usize)> = Vec::new();
     for (pos, ev) in log.iter().enumerate() {
         match ev {
-            Ev::Bind { uid, host, port, localhost, step, buf } => {
-                socks.insert(*uid, SockInfo { host: *host, port: *port, localhost: *localhost, from: *step, to: u64::MAX, buf: *buf, connects: vec![], broadcast: vec![] });
+            Ev::Bind { uid, host, port, localhost, step, buf, pause } => {
+                socks.insert(*uid, SockInfo { host: *host, port: *port, localhost: *localhost, from: *step, to: u64::MAX, buf: *buf, pause: *pause, connects: vec![], broadcast: vec![] });
             }
             Ev::Drop { uid, step } => {
                 let s = socks.get_mut(uid).unwrap();
@@ -497,7 +499,10 @@ pub fn run(sc: &Scenario) -> Outcome {
         let win = (s.step, s.step + w);
         // bound during step `from`, dropped during step `to`: alive for part of both
         let alive_some = r.from <= win.1 && r.to >= win.0;
-        let alive_all = r.from < win.0 && r.to > win.1 + 1;
+        // a paused receiver drains at most one datagram per (pause + 1) ms: the socket has to
+        // outlive the delivery window by the time it needs to work off a full queue
+        let drain = ((cap as u64 + 2) * (r.pause + 1)).div_ceil(tick) + 1;
+        let alive_all = r.from < win.0 && r.to > win.1 + 1 + drain;
         if !alive_some || r.port != s.dst.port() {
             return Rel::No;
         }
